@@ -192,6 +192,11 @@ func (g *Gen) Next(run *Run) Op {
 		ws = []kw{{"newalloc", 6}, {"wplock", 5}, {"commit", 18}, {"genchal", 10}, {"chalresp", 12}, {"update", 12},
 			{"finalize", 5}, {"cancel", 4}, {"rplock", 4}, {"read", 6}, {"kill", 2}, {"shutdown", 1}, {"updblobber", 4}, {"bad", 1}, {"rpunlock", 2},
 			{"addassigner", 3}, {"freealloc", 7}}
+	case "C04":
+		// every function that queues transfers, updates with attached tokens most of all
+		ws = []kw{{"newalloc", 10}, {"wplock", 6}, {"commit", 8}, {"genchal", 4}, {"chalresp", 5}, {"update", 30},
+			{"finalize", 5}, {"cancel", 4}, {"rplock", 5}, {"read", 4}, {"kill", 1}, {"shutdown", 1}, {"updblobber", 2}, {"bad", 1}, {"rpunlock", 3},
+			{"addassigner", 3}, {"freealloc", 8}}
 	case "C13":
 		ws = []kw{{"newalloc", 12}, {"wplock", 3}, {"commit", 10}, {"genchal", 5}, {"chalresp", 5}, {"update", 22},
 			{"finalize", 7}, {"cancel", 6}, {"rplock", 1}, {"read", 1}, {"kill", 5}, {"shutdown", 3}, {"updblobber", 8}, {"bad", 1}}
@@ -489,6 +494,41 @@ func (g *Gen) Next(run *Run) Op {
 		if r.Chance(1, 6) {
 			o.V = r.PickU64([]uint64{1, 1e9, 1e11})
 		}
+		if g.Prop == "C04" && a != nil && a.Owner >= 0 && r.Chance(1, 2) {
+			// tokens attached to a request that names somebody else as owner_id:
+			// a third party extending a third_party_extendable allocation, or the owner handing it over
+			other := func(not ...int) int {
+				for {
+					c := cli()
+					okc := true
+					for _, n := range not {
+						if c == n {
+							okc = false
+						}
+					}
+					if okc || h.NCli < len(not)+1 {
+						return c
+					}
+				}
+			}
+			if a.TPE && r.Chance(1, 2) {
+				o.S = other(a.Owner)
+				o.X |= xExtend | xOwnerChange
+				o.C = other(o.S)
+				o.Ad, o.Rm = 0, 0
+			} else {
+				o.S = a.Owner
+				o.X |= xOwnerChange
+				o.C = other(a.Owner)
+				if r.Chance(1, 3) {
+					o.X |= xExtend
+				}
+			}
+			o.X &^= xBadID
+			if o.V == 0 || r.Chance(1, 2) {
+				o.V = r.PickU64([]uint64{1, 1e9, 1e10, 1e11})
+			}
+		}
 		return o
 
 	case "finalize", "cancel":
@@ -719,6 +759,30 @@ func (g *Gen) Script(run *Run) *Op {
 		return o
 	}
 	switch g.script {
+	case "third-party-extend", "owner-handover":
+		// an extendable allocation, then tokens attached to an update that names another client as owner_id
+		switch g.step {
+		case 0:
+			return newAlloc()
+		case 1, 2:
+			l, a := firstOpen()
+			if a == nil || a.Owner < 0 {
+				break
+			}
+			o := &Op{K: "update", Dt: 5, A: l, X: xOwnerChange, V: r.PickU64([]uint64{1e9, 1e10, 1e11})}
+			if g.script == "third-party-extend" {
+				o.S = refClient + (a.Owner-refClient+1)%h.NCli
+				o.C = refClient + (a.Owner-refClient+2)%h.NCli
+				o.X |= xExtend
+			} else {
+				o.S = a.Owner
+				o.C = refClient + (a.Owner-refClient+1)%h.NCli
+				if r.Chance(1, 2) {
+					o.X |= xExtend
+				}
+			}
+			return o
+		}
 	case "killed-replace":
 		switch g.step {
 		case 0:
